@@ -94,6 +94,7 @@ Definition event_eqb (a c : event) : bool :=
   | Escaped x, Escaped y => x =? y
   | AccessLog x, AccessLog y => ctx_eqb x y
   | UpstreamClose, UpstreamClose => true
+  | ClientShutdown, ClientShutdown => true
   | ClientClose, ClientClose => true
   | _, _ => false
   end.
